@@ -37,6 +37,7 @@ type Encoder struct {
 	curBlk      *ssa.BasicBlock
 	anc         map[*ssa.BasicBlock]map[*ssa.BasicBlock]bool
 	blockCases  map[*ssa.BasicBlock][]string // incoming edge conditions of join blocks (for the case-split fallback)
+	noRead      []noReadLoc                  // read frame of the function under contract
 	defs        map[string]string            // defined name -> term (for store-to-load forwarding)
 	parts       map[string][]string          // constructor term -> field terms
 }
